@@ -219,12 +219,22 @@ func (ck *checker) checkCase(env *qh.Env, q *qm.Q, only *qh.PlanCase) {
 		}
 		c.Eval(1)
 	}
+	undecidedAtSetup := false
 	visit := func(pc qh.PlanCase, p *qh.Prepared, err error) {
 		if err != nil {
+			undecidedAtSetup = undecidedAtSetup || strings.Contains(err.Error(), "cannot do math on String literal")
 			if pc.Knobs.Stats != "" {
 				// cost arithmetic can overflow under the scaled statistics
 				// (assertion in the optimizer): not a result, not judged
 				c.Count("setup_panic_under_scaled_statistics", 1)
+				return
+			}
+			if strings.Contains(err.Error(), "cannot do math on String literal") {
+				// a where/extend with arithmetic on a column that one side of a
+				// union does not have is rewritten with "" for that column and
+				// refused by the constant folder: an expression error, which the
+				// model leaves undecided (it only sees it when there are rows)
+				c.Count("undecided_expression_error_at_setup", 1)
 				return
 			}
 			ck.fail(env, q, pc, "setup", "%v", err)
@@ -283,7 +293,7 @@ func (ck *checker) checkCase(env *qh.Env, q *qm.Q, only *qh.PlanCase) {
 			c.Count("optimizer_runs", st.Runs)
 			if st.Distinct == 0 {
 				c.Count("no_plan:"+qh.ModeName(mode)+":"+r.Use, 1)
-				if r.Use == "none" && mode != qry.CursorMode {
+				if r.Use == "none" && mode != qry.CursorMode && !undecidedAtSetup {
 					ck.fail(env, q, qh.PlanCase{Mode: qh.ModeName(mode), Req: r}, "impossible",
 						"no plan at all for a plain read")
 				}
